@@ -333,10 +333,19 @@ func (r *Reader) run(cg *ConsumerGroup) {
 
 		r.subscribe(gen.Assignments)
 
+		// The generation may already have ended (e.g. a failed heartbeat right
+		// after the rebalance), in which case the functions started below are
+		// not tracked by it and cg.Next would return the next generation while
+		// they still run: the unsubscribe of this generation would then cancel
+		// the fetchers of the next one. Wait for them before moving on.
+		var started sync.WaitGroup
+		started.Add(2)
 		gen.Start(func(ctx context.Context) {
+			defer started.Done()
 			r.commitLoop(ctx, gen)
 		})
 		gen.Start(func(ctx context.Context) {
+			defer started.Done()
 			// wait for the generation to end and then unsubscribe.
 			select {
 			case <-ctx.Done():
@@ -346,6 +355,7 @@ func (r *Reader) run(cg *ConsumerGroup) {
 			}
 			r.unsubscribe()
 		})
+		started.Wait()
 	}
 }
 
